@@ -191,7 +191,9 @@ func GenPrios(t *rapid.T, max int, big bool) []uint {
 			p = uint(rapid.IntRange(1, 300).Draw(t, "p"))
 		default:
 			if big {
-				p = uint(logUniform64(t, "pbig", 21))
+				// "up to large magnitudes": sums beyond 2^32 as well; the dividend is cut below so
+				// that dividend*priority stays exactly representable
+				p = uint(logUniform64(t, "pbig", 44))
 			} else {
 				p = uint(rapid.IntRange(1, 100).Draw(t, "p"))
 			}
